@@ -59,7 +59,7 @@ def extra(res, findings, tier, rng, harness, driver):
             why.append("Succs() does not follow targets changed through Operands()")
         if why:
             bad += 1
-            res.violation("%s (instance with every optional operand present, list fields of length 2, boolean fields %s): %s" % (r["type"], "set" if r.get("flags") else "clear", "; ".join(why)),
+            res.violation("%s (instance with every optional operand present, list fields of length 2%s): %s" % (r["type"], ", boolean fields set, the first element of every helper list with empty inner lists" if r.get("flags") else ", boolean fields clear", "; ".join(why)),
                           {"ops": [], "table_row": r, "replay_hint": "cd /verif/harness && ./bin/harness opsgen opsprog/main.go && go run -tags verif ./opsprog | grep " + r["type"]})
     return {"table_rows": len(rows), "table_rows_violating": bad}
 
